@@ -597,6 +597,64 @@ theorem IG.run {s s' : MS} {es : List Ev} (h : IG s) (hs : MempoolLock.run .v0g 
 theorem IG.init (p : Nat) : IG { pool := p } :=
   ⟨by simp, by simp [gateCount], by simp, by simp [holds], by simp [inCommitWindow]⟩
 
+/-! ## v1 over the asynchronous connection -/
+
+/-- what survives of v1's discipline: the committer holds the exclusive lock while the commit is
+requested; and a flush still pending has exactly the requests in front of it that are counted -/
+structure I1A (s : MS) : Prop where
+  cw : s.cpc = .commitGate → s.writer = true
+  fl : s.flushAfter ≤ s.queue.length
+
+theorem I1A.step {s s' : MS} {e : Ev} (h : I1A s) (hs : MempoolLock.step .v1a s e = some s') : I1A s' := by
+  cases e <;> simp only [MempoolLock.step] at hs
+  case spawnCheck i => split at hs <;> cases hs; exact ⟨h.cw, h.fl⟩
+  case prelude i =>
+    split at hs <;> cases hs
+    refine ⟨h.cw, ?_⟩
+    have := h.fl
+    show s.flushAfter ≤ (s.queue ++ [(false, i)]).length
+    simp; omega
+  case relCheck i =>
+    split at hs
+    · split at hs <;> cases hs
+      refine ⟨h.cw, ?_⟩
+      have := h.fl
+      show s.flushAfter - 1 ≤ s.queue.tail.length
+      simp; omega
+    · simp at hs
+  case addCheck i => split at hs <;> cases hs; exact ⟨h.cw, h.fl⟩
+  case spawnCommit => split at hs <;> cases hs; exact ⟨by simp, h.fl⟩
+  case lockCommit => split at hs <;> cases hs; exact ⟨by simp, Nat.le_refl _⟩
+  case relFlush =>
+    split at hs
+    · split at hs <;> cases hs
+      exact ⟨by simp, h.fl⟩
+    · cases hs
+  case relockCommit => split at hs <;> cases hs; exact ⟨by simp, h.fl⟩
+  case relCommit =>
+    split at hs <;> cases hs
+    exact ⟨by simp, by have := h.fl; simp; omega⟩
+  case relRecheck j =>
+    split at hs <;> cases hs
+    refine ⟨h.cw, ?_⟩
+    have := h.fl
+    show s.flushAfter - 1 ≤ s.queue.tail.length
+    simp; omega
+  case handleRecheck => split at hs <;> cases hs; exact ⟨h.cw, h.fl⟩
+  case retCheck i => simp at hs
+  case retRecheck => simp at hs
+
+theorem I1A.run {s s' : MS} {es : List Ev} (h : I1A s) (hs : MempoolLock.run .v1a s es = some s') : I1A s' := by
+  induction es generalizing s with
+  | nil => simp [MempoolLock.run] at hs; subst hs; exact h
+  | cons e es ih =>
+    simp only [MempoolLock.run] at hs
+    cases he : MempoolLock.step .v1a s e with
+    | none => simp [he] at hs
+    | some s1 =>
+      rw [he] at hs
+      exact ih (h.step he) hs
+
 /-! every run of the local-client discipline `v0` is a run of the general discipline `v0g` -/
 
 def noQ (s : MS) : Prop := (∀ p ∈ s.chk, p.2 ≠ KPC.queued) ∧ s.rechecks = []
